@@ -3,7 +3,7 @@ NAMES = ["Host", "User-Agent", "Accept", "Accept-Encoding", "Accept-Language", "
          "Content-Type", "Content-Length", "Via", "X-Tag", "Cookie", "X-Zone-Id", "Authorization"]      # (incl. names with every "edge" letter: a, z, A, Z)
 VALUES = ["example.com", "Mozilla/5.0 (X11; Linux) Firefox/10.0", "curl/7.81", "*/*", "gzip, deflate", "keep-alive", "close", "", "x", "a:b",
           "text/html", "0", "Apache/2.2", "nginx/1.2", "en-US,en;q=0.5", "MSIE 8.0", " padded ", "a  b",
-          "text/html ;q=0.9", "CURL/7.81", "apache/2.2", "mozilla/5.0 firefox/10.0", "Mozilla/5.0 (KHTML, like Gecko) HeadlessChrome/41", "Mozilla/5.0 (KHTML, like Gecko) Chrome/41 Safari", "x ;y"]
+          "text/html ;q=0.9", "CURL/7.81", "Tue, 01 Mar 2011 20:45:16 +99999999999999", "Tue, 01 Mar 20111111111 20:45:16 GMT", "Tue, 01 Mar 2011 20:45:16 GMT", "apache/2.2", "mozilla/5.0 firefox/10.0", "Mozilla/5.0 (KHTML, like Gecko) HeadlessChrome/41", "Mozilla/5.0 (KHTML, like Gecko) Chrome/41 Safari", "x ;y"]
 
 
 def case_variant(R, name):
@@ -65,7 +65,7 @@ def render(R, direction, minor, headers, body=b"", fold=True, eol_choice=None):
 
 def rand_http_sig(R, headers=None):
     """Signature text; when `headers` is given it is derived from that message so that it often matches."""
-    ver = R.choice(["0", "1", "*", "*"])
+    ver = R.choice(["0", "1", "*", "*"] * 60 + [""])      # (an EMPTY version field is no wildcard: the file is refused)
     items = []
     if headers:
         keep = [h for h in headers if R.random() < 0.7]
